@@ -26,6 +26,8 @@ type harness struct {
 	// Bounds: preemption bounds to run iteratively; -1 = unbounded.
 	Bounds  []int
 	Horizon int
+	// OwnPanics: the harness's Check classifies panics itself.
+	OwnPanics bool
 }
 
 // runHarness explores h under each bound in turn and records results in c.
@@ -82,7 +84,7 @@ func stdProblems(h *harness, x *vsched.Exec) []lib.Problem {
 	if x.Deadlock != "" {
 		probs = append(probs, lib.Problem{Key: h.Name + ":deadlock", What: "deadlock: " + x.Deadlock})
 	}
-	if x.Panic != "" {
+	if x.Panic != "" && !h.OwnPanics {
 		probs = append(probs, lib.Problem{Key: h.Name + ":panic:" + x.PanicAt, What: "panic: " + x.Panic + " at " + x.PanicAt})
 	}
 	if x.Horizon {
